@@ -18,7 +18,7 @@ Definition onat_eqb := option_eqb Nat.eqb.
 
 Definition tokresp_eqb (a b : tokresp) : bool :=
   Nat.eqb (t_at a) (t_at b) && String.eqb (t_at_sub a) (t_at_sub b)
-  && option_eqb String.eqb (t_jwt a) (t_jwt b)
+  && option_eqb String.eqb (t_jwt a) (t_jwt b) && strs_eqb (t_at_aud a) (t_at_aud b)
   && onat_eqb (t_rt a) (t_rt b)
   && String.eqb (t_sub a) (t_sub b) && strs_eqb (t_aud a) (t_aud b) && String.eqb (t_azp a) (t_azp b)
   && String.eqb (t_nonce a) (t_nonce b) && Nat.eqb (t_auth a) (t_auth b) && strs_eqb (t_scope a) (t_scope b).
